@@ -464,7 +464,6 @@ func (pc *provCtx) keysOf(v ssa.Value, at ssa.Instruction, depth int, seen map[s
 	return []origin{{Kind: "other", Detail: "map key of " + v.String(), Pos: v.Pos()}}
 }
 
-
 type boundArg struct {
 	v  ssa.Value
 	at ssa.Instruction
